@@ -7,15 +7,25 @@
 //! ops:
 //!   [0, packet, now_us]   insert_one(packet, now)
 //!   [1, max]              subtract_below(max)
-//!   [2, now_us]           ack_delay(now)   (adds the delay in microseconds after the ranges)
-//! observation of every op: [n, start_0, end_0, ..., start_{n-1}, end_{n-1}] (half-open ranges of
-//! `ranges()`, ascending), op 2 appends `ack_delay` in microseconds.
+//!   [2, now_us]           ack_delay(now)   (appends the delay in microseconds)
+//!   [3]                   dump: [n, start_0, end_0, ..., start_{n-1}, end_{n-1}] (half-open ranges
+//!                         of `ranges()`, ascending)
+//! observation of ops 0..2: [n, first.start, last.end] of `ranges()` (`[0, -1, -1]` when empty);
+//! the full range list is only printed by op 3 to keep the case files small.
 #![allow(missing_docs, dead_code, unused_imports, unreachable_pub, clippy::all)]
 use super::{Ops, Outs};
 use crate::{
     Duration, Instant,
     connection::spaces::{PacketSpace, PendingAcks},
 };
+
+fn summary(p: &PendingAcks) -> Vec<i128> {
+    let r = p.ranges();
+    match (r.iter().next(), r.iter().next_back()) {
+        (Some(a), Some(b)) => vec![r.len() as i128, a.start as i128, b.end as i128],
+        _ => vec![0, -1, -1],
+    }
+}
 
 fn observe(p: &PendingAcks) -> Vec<i128> {
     let mut o = vec![p.ranges().len() as i128];
@@ -34,18 +44,19 @@ fn pending_acks(ops: &Ops) -> Outs {
         .map(|op| match op[0] {
             0 => {
                 p.insert_one(op[1] as u64, at(op[2]));
-                observe(&p)
+                summary(&p)
             }
             1 => {
                 p.subtract_below(op[1] as u64);
-                observe(&p)
+                summary(&p)
             }
             2 => {
                 let d = p.ack_delay(at(op[1]));
-                let mut o = observe(&p);
+                let mut o = summary(&p);
                 o.push(d.as_micros() as i128);
                 o
             }
+            3 => observe(&p),
             _ => vec![-1],
         })
         .collect()
